@@ -241,7 +241,12 @@ def _make_session(cm, rec2, sid, host, **kw):
         return DeadSession(e)
 
 
+_user_styles = [0]
+
+
 def user_of(cfg):
+    """gufo.snmp.user.User for cfg.  The keys are given to the constructor, or (password-type keys only: no alignment is involved)
+    attached to the public attributes afterwards - `user.priv_key = ...` is ordinary use of the class."""
     from gufo.snmp.user import User, Md5Key, Sha1Key, DesKey, Aes128Key, KeyType
     if cfg.ver != "v3":
         return None
@@ -252,6 +257,19 @@ def user_of(cfg):
     pk = None
     if cfg.priv != "none":
         pk = (DesKey if cfg.priv == "des" else Aes128Key)(cfg.pkm, key_type=kt[cfg.pkt])
+    _user_styles[0] += 1
+    style = _user_styles[0] % 3
+    if style and cfg.akt == "password" and (pk is None or cfg.pkt == "password") and ak is not None:
+        if style == 1 and pk is not None:
+            u = User(cfg.user, auth_key=ak)
+            u.priv_key = pk
+            return u
+        if style == 2:
+            u = User(cfg.user)
+            u.auth_key = ak
+            if pk is not None:
+                u.priv_key = pk
+            return u
     return User(cfg.user, auth_key=ak, priv_key=pk)
 
 
